@@ -3,7 +3,9 @@
     toastptr   ParseTOASTPointer / IsTOASTPointer on pointer encodings (all boundary values, random)
     toastrel   relation file → ReadTOASTTable → ReassembleTOAST / TOASTReader.ReadValue, every value of the relation
     pglz, lz4  forced-form streams through ReassembleTOAST with a compressed pointer (chunks handed over directly)
-    toaststats GetTOASTVerboseInfo tallies
+    toaststats GetTOASTVerboseInfo tallies (Values in the order returned)
+    toastrepeat GetTOASTVerboseInfo 20 times, byte-identical JSON (C11)
+    toastties  live rows with duplicate chunk_seq through ReassembleTOAST (stable order among equals)
     lz4go, pglzgo   handler-side batches with an independent compressor (impl vs original only)
     toastmut   corrupted relations / pointers / streams (C10)
 -/
@@ -19,7 +21,7 @@ open PgVerif.Model.Toast (Ptr Chunk)
 
 namespace Toast
 
-def noZlib : Bytes → Option Bytes := fun _ => none
+def noZlib : Bytes → Nat → Option Bytes := fun _ _ => none
 
 def showPtr : Option Ptr → String
   | none => "~"
@@ -390,11 +392,13 @@ def showStatsCommon (relid totalChunks unique totalSize maxPer : Nat) (dist : Li
 
 def sortPairs (xs : List (Nat × Nat)) : List (Nat × Nat) := xs.mergeSort fun a b => a.1 ≤ b.1
 
+/-- `ChunkDistribution` is a Go map (rendered by key); `Values` is a slice: rendered in the order returned, which is part of
+the result (C11) -/
 def showInfo : Option Model.Toast.VerboseInfo → String
   | none => "~"
   | some i =>
     showStatsCommon i.toastRelID i.totalChunks i.uniqueValues i.totalSize i.maxChunksPerValue (sortPairs i.distribution)
-      ((i.values.mergeSort fun a b => a.chunkID ≤ b.chunkID).map fun v => (v.chunkID, v.numChunks, v.totalSize))
+      (i.values.map fun v => (v.chunkID, v.numChunks, v.totalSize))
 
 def showStats (relid : Nat) (rows : List Row) : String :=
   if rows.isEmpty then "~" else
@@ -404,7 +408,7 @@ def showStats (relid : Nat) (rows : List Row) : String :=
 
 def toaststatsEval (args : List String) : String :=
   match args with
-  | [relid, file] => showM showInfo (Model.Toast.getTOASTVerboseInfo relid.toNat! (unhex file))
+  | [relid, file] => showM showInfo (Model.Toast.getTOASTVerboseInfoWith List.reverse relid.toNat! (unhex file))
   | _ => "bad-args"
 
 def toaststatsGen (seed idx size : Nat) : Case :=
@@ -415,10 +419,122 @@ def toaststatsGen (seed idx size : Nat) : Case :=
   let rows := rel.lay.liveRows
   let tags := [s!"vals={if rel.vals.length ≤ 1 then "1" else if rel.vals.length ≤ 5 then "2..5" else "6..50"}",
                (if rel.lay.flatten.any (fun e => !e.live) then "dead=1" else "dead=0")] ++ (if rows.isEmpty then [] else ["nt"])
-  { tags, model := showM showInfo (Model.Toast.getTOASTVerboseInfo relid file), spec := showStats relid rows,
+  -- the iteration order of Go's `range` over the value map is a parameter of the model: any rearrangement gives the same
+  -- report (Props/C11Maps); the driver takes the reversed list so that the sort of fixes/toast/05 has work to do
+  { tags, model := showM showInfo (Model.Toast.getTOASTVerboseInfoWith List.reverse relid file), spec := showStats relid rows,
     args := [toString relid, hexRle file] }
 
 def toaststats : Family := { name := "toaststats", gen := toaststatsGen, eval := toaststatsEval, fixed := fixedRels.length }
+
+/-! ### toastrepeat (C11): GetTOASTVerboseInfo 20 times on the same file; the handler answers `same` when all 20
+    `json.Marshal` renderings (what `pgread -toast-verbose` prints) are byte-identical.  MODEL = SPEC = `same` (the model
+    is a function; that the map iteration order does not matter is `C11_toastInfo_order_independent`).  Same relations as
+    `toaststats`. -/
+
+def toastrepeatGen (seed idx size : Nat) : Case :=
+  let k := toaststatsGen seed idx size
+  let many := k.tags.contains "vals=2..5" || k.tags.contains "vals=6..50"
+  { tags := (k.tags.filter (· != "nt")) ++ (if many then ["nt"] else []), model := "same", spec := "same", args := k.args }
+
+def toastrepeat : Family := { name := "toastrepeat", gen := toastrepeatGen, eval := fun _ => "same", fixed := fixedRels.length }
+
+/-! ### toastties: LIVE rows of one value with DUPLICATE chunk_seq (REVIEW C2)
+
+A value whose live rows repeat a sequence number is outside `Layout.Stores` (PostgreSQL's toast index is unique on
+(chunk_id, chunk_seq) among visible rows) — but it is what the tool sees when a deleted chunk version is not yet hinted
+as deleted (0x0102 with xmax ≠ 0): live by the hint-bit rule, so both versions are concatenated.  SPEC is silent (`-`);
+the family pins MODEL = implementation: ReassembleTOAST sorts with sort.SliceStable since fixes/toast/06, equal sequence
+numbers keep their physical order (the model's stable merge sort).  Before the fix the order among equals was pdqsort's
+and differed from any stable sort from 13 chunks on.  Same arguments and handler as `toastrel`. -/
+
+/-- `n` rows of value 5 with the given sequence numbers, two bytes of data each naming the row's index -/
+def tieRows (seqs : List Nat) : List Row :=
+  seqs.zipIdx.map fun (s, i) => { id := 5, seq := s, data := [UInt8.ofNat (65 + i % 26), UInt8.ofNat (48 + i % 10)] }
+
+def tieCase (rows : List Row) (twoPages : Bool) (mode : Nat) (tag : String) : Case :=
+  let es : List Entry := rows.map fun r => ({ row := r } : Entry)
+  let other : Entry := { row := { id := 6, seq := 0, data := [0xEE] } }
+  let lay : Layout := if twoPages then [es.take (es.length / 2) ++ [other], es.drop (es.length / 2)] else [other :: es]
+  let total := (rows.map (·.data.length)).sum
+  let ptr : ExtPtr := ⟨total + 4, total, 0, 5, 16385⟩
+  let file := encToastRel lay
+  let ptrs := encExtPtr ptr
+  let distinct := (rows.map (·.seq)).eraseDups.length == rows.length
+  -- with distinct sequence numbers the value is the concatenation in sequence order
+  let spec := if distinct then
+      "s" ++ hexOf ((rows.mergeSort fun a b => a.seq ≤ b.seq).flatMap (·.data))
+    else "-"
+  { tags := [tag, s!"mode={mode}", (if rows.length ≤ 12 then "n<=12" else "n>=13"), (if distinct then "ties=0" else "ties=1"), "nt"],
+    model := relModel mode 16385 file ptrs, spec, args := [toString mode, "16385", hexRle file, hexRle ptrs] }
+
+def fixedTies : List (List Nat × Bool) :=
+  [ -- REVIEW C2: 13 chunks, seq = i/2, physical order reversed
+    (((List.range 13).map (· / 2)).reverse, false),
+    ((List.range 13).map (· / 2), false),
+    (((List.range 14).map (· / 2)).reverse, true),
+    (((List.range 16).map (· / 2)).reverse, false),
+    (((List.range 20).map (· / 3)).reverse, true),
+    (((List.range 32).map (· / 2)).reverse, false),
+    (((List.range 40).map (· % 5)), true),
+    (List.replicate 13 0, false),
+    (List.replicate 25 7, true),
+    ([1, 0, 1, 0], false),
+    (((List.range 12).map (· / 2)).reverse, false),
+    ((List.range 15).reverse, false) ]
+
+def toasttiesGen (seed idx _size : Nat) : Case :=
+  if idx < fixedTies.length then
+    let (seqs, two) := fixedTies.getD idx ([], false)
+    tieCase (tieRows seqs) two (idx % 2) "fixed"
+  else
+    ((do
+      let n ← (do match ← Gen.below 4 with
+        | 0 => Gen.range 2 12
+        | 1 => Gen.range 13 20
+        | _ => Gen.range 13 60)
+      let range ← Gen.oneOf [1, 2, 3, n / 2 + 1, n, 2 * n]
+      let seqs ← Gen.listOf n (Gen.below range)
+      let two ← Gen.bool
+      pure (tieCase (tieRows seqs) two (idx % 2) "random") : Gen Case)).run' (Prng.ofSeed seed idx)
+
+def toastties : Family := { name := "toastties", gen := toasttiesGen, eval := toastrelEval, fixed := fixedTies.length }
+
+/-! ### toastunhinted: the open finding `C08-unhinted-chunks`
+
+SPEC = what PostgreSQL returns (it decides visibility from the commit log); the relation is generated fully hinted, its
+expected values taken, and then the hint bits of the first value's chunks are taken back to what they are before anything
+has set them:
+  fresh   every live chunk of the value in state 0x0802 (inserted by a committed transaction, XMIN_COMMITTED not set yet)
+          — the tool does not see the value: `~`
+  stale   an old version of the value's first chunk, deleted by a committed transaction but not hinted so (0x0102,
+          xmax ≠ 0), stored before it — the tool concatenates both versions
+  hinted  the relation as generated (control: no finding tag)
+Same arguments and handler as `toastrel`. -/
+
+def toastunhintedGen (seed idx size : Nat) : Case :=
+  let rel := if idx < boundaryRels.length then boundaryRels.getD idx default
+             else (Gen.Toast.genRel (min size 2)).run' (Prng.ofSeed (seed + 311) idx)
+  let mode := idx % 2
+  let base := relCase rel mode
+  match rel.vals.head? with
+  | none => base
+  | some v0 =>
+    let hasLive := !(rel.lay.liveRows.filter fun r => r.id == v0.id).isEmpty
+    let variant := if hasLive then (idx / 2) % 3 else 2
+    let lay' : Layout :=
+      match variant with
+      | 0 => rel.lay.map fun pg => pg.map fun e => if e.live && e.row.id == v0.id then { e with infomask := 0x0802 } else e
+      | 1 =>
+        let old : Entry := { row := { id := v0.id, seq := 0, data := [0xDE, 0xAD] }, infomask := 0x0102, xmin := 600, xmax := 900 }
+        [old] :: rel.lay
+      | _ => rel.lay
+    let k := relCase { rel with lay := lay' } mode
+    let vt := match variant with | 0 => "class=fresh" | 1 => "class=stale" | _ => "class=hinted"
+    { k with spec := base.spec,
+             tags := [vt, s!"mode={mode}"] ++ (if variant < 2 then ["kf:C08-unhinted-chunks"] else []) ++ ["nt"] }
+
+def toastunhinted : Family :=
+  { name := "toastunhinted", gen := toastunhintedGen, eval := toastrelEval, fixed := boundaryRels.length }
 
 /-! ### toastmut (C10): nothing in toast.go may panic or allocate out of proportion, whatever the bytes -/
 
